@@ -115,6 +115,9 @@ def case_query(case):
     gs, colour, address = _load()
     sel, v = case["selector"], case["value"]
     u = unit()
+    # the sequence starts with QUERY ACTUAL LEVEL (209 requires it to refresh the report values); whatever level the
+    # unit reports - including 0 (off) and 255 (MASK: lamp failure / level unknown) - the colour registers are readable
+    u.level = case.get("level", [0, 1, 170, 254, 255][(v + sel) % 5])
     u.colour_values = {sel: v}
     # neighbours hold different values so that a wrong selector is visible
     for other in selectors():
